@@ -9,7 +9,6 @@ import (
 	"fmt"
 	"io"
 	"net/http"
-	"strings"
 
 	"github.com/zitadel/saml/pkg/provider/xml/samlp"
 	"github.com/zitadel/saml/pkg/provider/xml/soap"
@@ -84,13 +83,40 @@ func Write(w http.ResponseWriter, body []byte) error {
 	return err
 }
 
+// unmarshalDocument decodes a complete XML document: unlike xml.Unmarshal it does not ignore what follows the
+// root element, only whitespace, comments and processing instructions are allowed there.
+func unmarshalDocument(data []byte, v interface{}) error {
+	decoder := xml.NewDecoder(bytes.NewReader(data))
+	if err := decoder.Decode(v); err != nil {
+		return err
+	}
+	for {
+		token, err := decoder.Token()
+		if err == io.EOF {
+			return nil
+		}
+		if err != nil {
+			return err
+		}
+		switch t := token.(type) {
+		case xml.CharData:
+			if len(bytes.TrimSpace(t)) != 0 {
+				return fmt.Errorf("unexpected content after the root element")
+			}
+		case xml.Comment, xml.ProcInst:
+		default:
+			return fmt.Errorf("unexpected content after the root element")
+		}
+	}
+}
+
 func DecodeAuthNRequest(encoding string, message string) (*samlp.AuthnRequestType, error) {
 	data, err := InflateAndDecode(encoding, true, message)
 	if err != nil {
 		return nil, err
 	}
 	req := &samlp.AuthnRequestType{}
-	if err := xml.Unmarshal(data, req); err != nil {
+	if err := unmarshalDocument(data, req); err != nil {
 		return nil, err
 	}
 	return req, nil
@@ -109,10 +135,8 @@ func DecodeSignature(encoding string, b64 bool, message string) (*xml_dsig.Signa
 }
 
 func DecodeAttributeQuery(request string) (*samlp.AttributeQueryType, error) {
-	decoder := xml.NewDecoder(strings.NewReader(request))
 	var attrEnv soap.AttributeQueryEnvelope
-	err := decoder.Decode(&attrEnv)
-	if err != nil {
+	if err := unmarshalDocument([]byte(request), &attrEnv); err != nil {
 		return nil, err
 	}
 
@@ -125,7 +149,7 @@ func DecodeLogoutRequest(encoding string, message string) (*samlp.LogoutRequestT
 		return nil, err
 	}
 	req := &samlp.LogoutRequestType{}
-	if err := xml.Unmarshal(data, req); err != nil {
+	if err := unmarshalDocument(data, req); err != nil {
 		return nil, err
 	}
 	return req, nil
